@@ -761,7 +761,9 @@ class Task(GraphNode):
             else:
                 return a
 
-        new_argspec = tuple(map(_eval, self.args))
+        # not ``map``: a StopIteration raised by a nested task would end the
+        # iteration early and silently drop the remaining arguments
+        new_argspec = tuple([_eval(a) for a in self.args])
         if self.kwargs:
             kwargs = {k: _eval(kw) for k, kw in self.kwargs.items()}
             return self.func(*new_argspec, **kwargs)
